@@ -1,15 +1,138 @@
 """Claim table: level, technique and trusted base per claimed property (source of MANIFEST.json)."""
 
+TECH_VC = ("contract-based deductive verification: verification conditions generated from the real AST of /repo on every run "
+           "(pyvc symbolic executor, sidecar contracts under /verif/contracts), discharged by z3 with cvc5 on z3's unknowns")
+TECH_EFF = ("frame / reads / provenance clauses of the hook contracts checked on every store, call and constructor site of the "
+            "84 optimizer classes (pyvc/eff.py)")
+TECH_BND = "run-time form of the same contracts on an enumerated family of real runs (bounded stand-in, never counted as proved)"
+NOTE_VC = ("Trusted: the pyvc encoder, z3/cvc5, the assumed contracts of dependencies in pyvc/library.py (CPython list.sort / "
+           "slices / copy, numpy argsort / clip / average / dot / RNG, pydantic constructors and model_copy, concurrent.futures); "
+           "float + - * over the reals where tagged A_real; costs not NaN. ")
+NOTE_HOOKS = ("optimize() is proved against the abstract hook contracts; that each of the 84 classes refines them is the EFF part "
+              "(syntactic rule table, trusted) plus, for what numerics decide (shape / NaN-freedom of candidates, sizes of "
+              "hand-rolled populations), the bounded campaign. ")
+
+
+def C(text, note, technique, category="proof"):
+    return dict(text=text, note=note, technique=technique, category=category)
+
+
 CLAIMS = {
-    "C16": dict(
-        technique="contract-based deductive verification: VCs generated from the real AST of helpers.py / abstract.py against sidecar contracts over the stable-sort spec function sigma, discharged by z3 (cvc5 on unknown); failing obligations replayed on the real code",
-        text="Every selection helper (sort_by_cost, sort_and_trim, best/worst_agent(s), *_indexes, special_agents, greedy selection) is "
-             "verified for all populations, all n, both directions, ties and infinite costs: result = the prescribed slice of the stable "
-             "cost order of the caller's list (membership, distinct indices, order, optimality, caller's list and objects untouched) as "
-             "postconditions discharged function by function; callers use callee contracts only. Unbounded (symbolic list length).",
-        note="Trusted: the pyvc encoder, z3/cvc5, assumed contracts for CPython list.sort/copy/slices, numpy argsort, pydantic model_copy; "
-             "costs not NaN; lemma L1 (sorted arrangements coincide) used for the *_indexes cost clause.",
-    ),
+    "C01": C("Proved for all inputs: _init_agent / Task.initial_solution / correct_solution return positions in the search space "
+             "(against the abstract Variable contract, refined by the Continuous / Discrete VCs); _generate_agents, _init_population, "
+             "the result constructors and optimize()'s loop invariant carry it to every recorded generation and to best_solution. "
+             "EFF: every agent of every optimizer is built through _init_agent (PROV), never edited afterwards (FRAME-view), "
+             "populations are own lists (POP-own). Bounded: candidates passed to _init_agent are NaN-free and long enough "
+             "(84 optimizers x 6 task kinds x min/max x seeds).",
+             NOTE_VC + NOTE_HOOKS, TECH_VC + "; " + TECH_EFF + "; " + TECH_BND),
+    "C02": C("Proved: _fcn, _init_agent (cost = sgn * F(position), fitness = Fit(user cost)), calculate_fitness (bit-precise fp64), "
+             "Task.solve (objective evaluated at the position itself: members of the space are fixed points of correct), the two result "
+             "constructors (sign restored exactly once, positions and fitness kept) and optimize()'s invariant (every recorded agent "
+             "Reported). Scalar objectives fully; list-valued objectives: count / exceptions proved, the weighted value bounded. "
+             "EFF: PROV, FRAME-view, CALLS (single evaluation chain). Bounded: recomputation of every reported cost on real runs.",
+             NOTE_VC + NOTE_HOOKS + "The user's objective is an uninterpreted deterministic function F.", TECH_VC + "; " + TECH_EFF + "; " + TECH_BND),
+    "C03": C("Proved for all populations, ties, both directions and any pool order: special_agents / best_agents / sort_by_cost return the "
+             "optimum of the live population, optimize() recomputes it after the last step from the population it has just recorded, "
+             "and the result constructors negate costs order-reversingly: best_solution has the position and cost of a member of the last "
+             "generation and no member is strictly better in the task's direction.",
+             NOTE_VC + NOTE_HOOKS, TECH_VC + "; " + TECH_BND),
+    "C04": C("Proved for all rate histories, all max_cycles >= 1, patience >= 1, min_delta, fitness_error: __should_stop__ returns exactly the "
+             "predicate Stop of the statement (both directions; the code's window over first differences against 0 is proved equivalent), "
+             "__error_check__ appends |1 - mean fitness| and the difference, optimize()'s loop (invariant: no earlier stop, one generation "
+             "and one rate per cycle, cycle <= max_cycles; variant max_cycles - cycle) stops at the first cycle where Stop holds. "
+             "EFF FRAME-book: no optimizer touches the cycle counter or the rate lists. Bounded: rate k = |1 - mean fitness| of generation k "
+             "for later cycles, stop rule recomputed on real runs with three stopping configurations per optimizer.",
+             NOTE_VC + NOTE_HOOKS + "Termination of optimization_step itself is assumed.", TECH_VC + "; " + TECH_EFF + "; " + TECH_BND),
+    "C05": C("Proved: the abstract objective_function carries the precondition Space(task, x); its only call site (Task.solve) discharges it "
+             "from correct_solution's postcondition; EFF CALLS shows objective_function / solve / _fcn have no other caller in the package "
+             "and every _init_agent override reaches the base exactly once. Bounded: NaN-freedom and length of the candidates the 84 "
+             "optimizers pass to _init_agent (the objective itself checks its argument on real runs, also inside worker processes).",
+             NOTE_VC + NOTE_HOOKS, TECH_VC + "; " + TECH_EFF + "; " + TECH_BND),
+    "C06": C("Proved: optimize() raises ValueError iff no configuration / workers <= 0 / unknown mode / objective-weight count mismatch, and "
+             "before any cycle; every kernel function on the optimize path is free of implicit exceptions (index, unpack, None, divisor) under "
+             "its precondition, in all three modes, including the element-wise sign flip of list objectives; validators raise iff the "
+             "documented condition. Bounded (labelled): exceptions inside the 84 optimizer bodies, keyed by (optimizer, exception, "
+             "function) on continuous tasks and by (optimizer, encoding) on integer-coded tasks against the committed expectation.",
+             NOTE_VC + NOTE_HOOKS, TECH_VC + "; " + TECH_BND),
+    "C07": C("Proved: on every path of optimize() the numpy global RNG is seeded with task.seed before any draw (ghost flag), for every "
+             "integer seed in numpy's range (Task.seed is an int field); EFF READS-rng: the whole call graph (84 classes, helpers, models) "
+             "draws only from numpy's global legacy RNG - no stdlib random, private generators, time, uuid, id/hash. With INIT / CTOR "
+             "(equal initial object state) the run is a function of (config, task, seed). Bounded: double runs of every optimizer with "
+             "a pre-perturbed global stream.",
+             NOTE_VC + "Meta-theorem (by hand): equal object state + equal RNG stream => equal run, for the deterministic fragment of python/numpy. ",
+             TECH_VC + "; " + TECH_EFF + "; " + TECH_BND),
+    "C08": C("Proved: optimize()'s prologue re-establishes the fresh book-keeping state (loop invariant initialisation needs it); EFF INIT: "
+             "every instance field an optimizer writes during a run is re-bound unconditionally in a per-run hook before any read; "
+             "FRAME-book. Bounded: second optimize() on a used instance equals a fresh instance, all 84 optimizers.",
+             NOTE_VC + NOTE_HOOKS, TECH_VC + "; " + TECH_EFF + "; " + TECH_BND),
+    "C09": C("EFF FRAME-cfg on every store site of the kernel and of the 84 optimizers: no assignment, augmented assignment, subscript store "
+             "or mutating call whose target is rooted at self._config / self._task / task, directly or through a local alias of a mutable "
+             "sub-object (scalar config fields are immutable). Bounded: model_dump() of configuration and task before / after every run.",
+             "Trusted: the EFF rule table (syntactic, intra-procedural alias tracking); mutation by the user's objective is out of scope.",
+             TECH_EFF + "; " + TECH_BND),
+    "C10": C("Proved: length clauses of _generate_agents (serial and pooled: a permutation keeps the length), _init_population, sort_and_trim, "
+             "_extend / _replace_and_trim, _greedy_select_population, get_pool_results, the Population constructor and optimize()'s invariant "
+             "(1 <= len <= population_size for every generation; = population_size for fixed-size classes, as an abstract predicate). "
+             "Bounded: that each of the 81 fixed-size optimizers keeps exactly population_size agents (sizes 1x..3x, all modes).",
+             NOTE_VC + NOTE_HOOKS, TECH_VC + "; " + TECH_EFF + "; " + TECH_BND),
+    "C11": C("Proved for an arbitrary bijection standing for the completion order: get_pool_results returns every future's value exactly once; "
+             "pooled _generate_agents / _greedy_select_population give a permutation of the serial outcome (none lost, none duplicated), so the "
+             "permutation-invariant guarantees transfer; RNG ownership: a random-drawing callable submitted to a process pool seeds its own "
+             "stream (ghost check); EFF POOL-pure: submitted callables write nothing of the optimizer. Not applicable part: real interleavings "
+             "and 'pairwise distinct' (probabilistic). Bounded: thread / process runs with the C01-C03, C05, C10 monitors and duplicate counts.",
+             NOTE_VC + "concurrent.futures axioms; thread-safety of numpy's global RNG assumed. ", TECH_VC + "; " + TECH_EFF + "; " + TECH_BND),
+    "C12": C("Proved: _fcn flips the sign exactly once on the way in, the result constructors exactly once on the way out (costs exact negatives), "
+             "helpers rank internal costs in the default direction; EFF READS-dir: no optimizer other than the committed exclusions (AntLion "
+             "reads fitness; ImperialistCompetitive only to fill fitness=) reads Agent.fitness / Task.minmax / TaskType; with C07's "
+             "determinism both runs follow the same trajectory. Bounded: max f versus min -f on every non-excluded optimizer.",
+             NOTE_VC + "Relational claim reduced to per-function reads clauses plus the determinism meta-theorem. ", TECH_VC + "; " + TECH_EFF + "; " + TECH_BND),
+    "C13": C("Proved (fp64, bit-precise, all doubles incl. +-inf and NaN): ContinuousVariable.correct = clip, maps non-NaN into [lb, ub], leaves "
+             "members unchanged, is idempotent; randomize within bounds; validators raise iff bounds inverted / equal, n_vars <= 0, patience < 1. "
+             "Proved (reals/ints): DiscreteVariable.correct / get_bounds / randomize. Bounded (law campaign, 1772 law instances): "
+             "permutation, label encoder, multi-variables child-wise, floating-point corner cases of the discrete clip, numpy scalars.",
+             NOTE_VC + "Permutation / LabelEncoder / multi-variables are outside the VC subset (numpy idioms): bounded only.", TECH_VC + "; " + TECH_BND),
+    "C14": C("Proved: Task.correct_solution has one coordinate per dimension and acts coordinate-wise with the owning flattened variable "
+             "(against the abstract Variable contract), initial_solution, solve. Bounded (law campaign over 30 variable mixes incl. size-1 "
+             "multi-variables and single permutations): dimension, flattening order, get_bounds, empty_solution, transform_solution.",
+             NOTE_VC + "get_variables / empty_solution / get_bounds / transform_solution use flattening comprehensions and dynamic return shapes "
+             "outside the VC subset: assumed contracts, checked by the bounded campaign.", TECH_VC + "; " + TECH_BND),
+    "C15": C("Proved: optimize()'s loop invariant keeps every recorded generation (history-ok, history-owns-its-lists): the Population constructor "
+             "owns a fresh list, hooks may only rebind the population; EFF FRAME-view / FRAME-book / POP-own on all 84 classes (no view field "
+             "of an existing agent is ever written, no position list mutated through an alias). Proved: agent_trend / agent_position / "
+             "best_agent_* return the idx-th agent of each generation in the result's direction (sigma spec). Bounded: deep snapshots.",
+             NOTE_VC + NOTE_HOOKS, TECH_VC + "; " + TECH_EFF + "; " + TECH_BND),
+    "C16": C("Every selection helper (sort_by_cost, sort_and_trim, best/worst_agent(s), *_indexes, special_agents, greedy selection of agents "
+             "and populations, extend / replace and trim) is verified for all populations, all n, both directions, ties and infinite costs: "
+             "result = the prescribed slice of the stable cost order of the caller's list (membership at distinct indices, order, optimality, "
+             "caller's list and objects untouched). Unbounded (symbolic list length).",
+             NOTE_VC + "Lemma L1 (sorted arrangements of one multiset coincide) for the *_indexes cost clause.", TECH_VC),
+    "C17": C("Proved: _greedy_select_agent returns the challenger only if strictly cheaper, else a copy of the incumbent; _greedy_select_population, "
+             "_extend_and_trim_population, sort_and_trim keep the cheapest. EFF ELITE: 56 classes whose every replacement of the population "
+             "goes through these forms (committed list; a class dropping out is a violation). Bounded: best cost monotone on real runs.",
+             NOTE_VC + "The step from 'every replacement is a greedy form' to 'min cost never increases' is argued per form, not re-derived "
+             "by the solver for each class (DESIGN §7).", TECH_VC + "; " + TECH_EFF + "; " + TECH_BND),
+    "C18": C("EFF CTOR on all 84 classes: constructible without arguments, the constructor stores the configuration and never dereferences it, "
+             "set_config_parameters is exactly self._config = <its config class>(**parameters); INIT (nothing cached from the configuration at "
+             "construction survives). Proved: optimize() raises ValueError when the configuration is None. Bounded: K() / optimize-without-"
+             "config / set_config_parameters equivalence on every optimizer.",
+             NOTE_VC + NOTE_HOOKS, TECH_VC + "; " + TECH_EFF + "; " + TECH_BND),
 }
+
+CLAIMS["C19"] = C(
+    "Bounded only (no obligation is counted as proved): the run-time form of the contract on the family the property names - ParameterGrid "
+    "laws (iteration = union of key-sorted products, len and indexing agree, IndexError beyond) exhaustively for 1..3 keys x 1..3 values, "
+    "dict and list of dicts; HyperTuner.execute with a scripted optimizer whose calls are logged: every grid point exactly once per trial "
+    "with exactly its parameters, best_parameters a grid point with the optimal mean in the task's direction (ties, min and max), "
+    "best_score that mean, resolve() runs with those parameters.",
+    "ParameterGrid is generator / itertools code and HyperTuner.execute is pandas + process pools: outside the Python subset of the VC "
+    "generator, so contract-based deduction does not reach it; the bounded stand-in the brief allows is used and labelled as such.",
+    TECH_BND, category="exploration")
+CLAIMS["C20"] = C(
+    "Bounded only (no obligation is counted as proved): n, m in 1..3 x the four documented shapes of modes plus None x 1..2 trials with "
+    "scripted optimizers and distinct task classes: every (algorithm, task) pair runs exactly n_trials times in its designated mode with the "
+    "given worker count, one table per algorithm (column per task, row per trial), unknown modes rejected at construction, export writes one "
+    "file per algorithm under <save_path>/<algorithm name>/ in the three formats.",
+    "Multitask is pandas / process-pool / filesystem code outside the VC subset; bounded stand-in, labelled as such.",
+    TECH_BND, category="exploration")
 
 NOT_APPLICABLE = {}
